@@ -556,6 +556,8 @@ func execute(sc scenario, cfgName, op string, fs []fault) (res result) {
 			res.c09 = append(res.c09, verdict{"secret-leaked", fmt.Sprintf("after closing session and factory %s was never closed (op=%s err=%v)", sr, op, err)})
 		case st.TouchAfterClose > 0:
 			res.c09 = append(res.c09, verdict{"touch-after-close", fmt.Sprintf("%s was accessed after Close", sr)})
+		case st.CloseCalls > 1:
+			res.c09 = append(res.c09, verdict{"secret-closed-twice", fmt.Sprintf("%s was closed %d times (released exactly once is required)", sr, st.CloseCalls)})
 		}
 	}
 	res.secrets = e.w.Led.Len()
